@@ -416,6 +416,56 @@ def display_types(f, D):
     return out
 
 
+def rule_arg_range(ctx, f):
+    """ARG-RANGE (added after seeded change C22b): the D-Bus specification allows `arg0` .. `arg63` and
+    `arg0path` .. `arg63path` only; a rule with index 64 formats to a string no bus accepts. Both setters guard the
+    index with one comparison against a constant: the comparison is evaluated for every u8, the indices that escape
+    the `InvalidMatchRule` edge must be exactly 0..=63, for `arg` and `arg_path` alike."""
+    B = "zbus::match_rule::builder::Builder"
+    want = set(range(64))
+    OPS = {"Eq": lambda a, b: a == b, "Ne": lambda a, b: a != b, "Lt": lambda a, b: a < b, "Le": lambda a, b: a <= b,
+           "Gt": lambda a, b: a > b, "Ge": lambda a, b: a >= b}
+    for name in ("arg", "arg_path"):
+        bodies = f.find(name=name, adt=B, trait="")
+        ctx.need(bodies, "Builder::" + name, "ARG-RANGE")
+        for b in bodies:
+            idx = [i for i in range(1, b.d["argc"] + 1) if b.locals[i][0] == "u8"]
+            if len(idx) != 1:
+                ctx.ob("ARG-RANGE", "index-parameter:" + name, False, "no single u8 index parameter", b.where)
+                continue
+            der = mir.derives(b, {idx[0]}, through_calls=False)
+            errs = {blk for blk, i, pl, rv, ln in mir.assignments(b)
+                    if rv[0] == "agg" and rv[1] == "adt" and rv[2] == "zbus::error::Error" and rv[3] == "InvalidMatchRule"}
+            found = None
+            for sb, op, lhs, rhs, tt, ft, ln in mir.cmp_switches(b):
+                kl, kr = mir.resolve_const(b, lhs), mir.resolve_const(b, rhs)
+                ll, rl = mir.op_local(lhs) if lhs[0] != "k" else None, mir.op_local(rhs) if rhs[0] != "k" else None
+                if kr is not None and ll in der and isinstance(kr.get("v"), int):
+                    ev = lambda i, k=kr["v"], op=op: OPS[op](i, k)
+                elif kl is not None and rl in der and isinstance(kl.get("v"), int):
+                    ev = lambda i, k=kl["v"], op=op: OPS[op](k, i)
+                else:
+                    continue
+                t_err = bool(errs & mir.reachable(b, [tt])) and not (errs & mir.reachable(b, [ft]))
+                f_err = bool(errs & mir.reachable(b, [ft])) and not (errs & mir.reachable(b, [tt]))
+                if not (t_err or f_err):
+                    continue
+                accepted = {i for i in range(256) if ev(i) != t_err}
+                found = (accepted, ln)
+                break
+            if found is None:
+                ctx.ob("ARG-RANGE", "index-guard:" + name, False,
+                       "no comparison of the index with a constant guards the InvalidMatchRule edge", b.where)
+                continue
+            accepted, ln = found
+            ok = accepted == want
+            ctx.ob("ARG-RANGE", "accepted-indices:" + name, ok,
+                   "Builder::%s accepts exactly the indices 0..=63" % name if ok else
+                   "Builder::%s accepts the indices %s..=%s (%d values); the specification allows 0..=63" % (
+                       name, min(accepted) if accepted else "-", max(accepted) if accepted else "-", len(accepted)),
+                   "%s:%d" % (b.file, ln))
+
+
 def rule_arg_unique(ctx, f):
     """ARG-UNIQUE (added after seeded change C22): Display writes every element of `args` / `arg_paths` under the key
     `arg{idx}`; the same key twice is not a rule the parser reads back to the same value. So the setters must keep the
@@ -471,6 +521,7 @@ def run(ctx):
     ctx.trusted.append("D-Bus specification, 'Match Rules' key table and message type names (transcribed in rules/C22.py)")
     f = ctx.facts("K1")
     rule_arg_unique(ctx, f)
+    rule_arg_range(ctx, f)
     fields = mr.rule_fields(ctx, f)
     D = ctx.one(f.find(name="fmt", adt=mr.RULE, trait="core::fmt::Display"), "<MatchRule as Display>::fmt")
     P = ctx.one([b for b in f.find(name="try_from", adt=mr.RULE, trait="core::convert::TryFrom")
